@@ -4,7 +4,8 @@
 
    Vocabulary (C15/Ops.v, Model.v, Spec.v).  Keys, values are integers; time is [Z] nanoseconds on
    the cache's clock; TTLs are seconds.  A history is a chronological list of client operations
-   [OSet k v ttl | OGet k | ODelete k | OCleanup | OReset | OAdvance d | OKeys].
+   [OSet k v ttl | OGet k | ODelete k | OCleanup | OReset | OAdvance d | OKeys | OStop] - Stop is an
+   operation of the history like the others (it may come anywhere, any number of times).
    [final maxttl t0 ops] = the model's state after running [ops] on a fresh cache (MaxTTL option
    [maxttl], clock starting at [t0]); [get s k] = what Get(k) returns in state [s].
    Spec side, read off the history only: [leaves k o] = operation [o] is not an accepted Set of k,
@@ -267,6 +268,16 @@ Theorem C15_oracle_misses_justified : forall maxttl h rs a k b,
   (forall v, ~ justified maxttl a k v) \/ last_set_fits maxttl (rev a) k = false.
 Proof. exact main_oracle_misses_justified. Qed.
 Print Assumptions C15_oracle_misses_justified.
+
+(* STOP CHANGES NOTHING A CLIENT SEES.  [OStop] may occur anywhere in the histories all theorems
+   above quantify over; the model's state is untouched by it and the specification expects the
+   same answers with or without it: a value Set after Stop is the one Get must return, a TTL that
+   runs out after Stop still ends the entry. *)
+Theorem C15_stop_transparent : forall maxttl s rh k,
+  step maxttl s OStop = (s, RUnit) /\
+  expected_get maxttl (OStop :: rh) k = expected_get maxttl rh k.
+Proof. exact main_stop_transparent. Qed.
+Print Assumptions C15_stop_transparent.
 
 (* The oracle also demands that Stop was observed to return and the cleaner to have exited; in a
    case of several overlapping Stop calls, that EVERY call returned and that the cleaner had
